@@ -29,6 +29,15 @@ func prim_eqbytes(a, b []byte) bool {
 	return true
 }
 
+func prim_forall(n int, f func(i int) bool) bool {
+	for i := 0; i < n; i++ {
+		if !f(i) {
+			return false
+		}
+	}
+	return true
+}
+
 func prim_fresh(a []byte) bool { return true } // "allocated during the call"; not observable at run time
 
 // ---------- the Amf0 interface contract (every implementation is verified against it) ----------
@@ -251,31 +260,75 @@ func spec_allocated(a Amf0) bool {
 //@ safe (*Boolean).UnmarshalBinary C07
 //@ safe (*singleMarkerObject).UnmarshalBinary C07
 //@ safe (*objectEOF).UnmarshalBinary C07
-//@ requires (*objectBase).unmarshal
-func req_objectBaseUnmarshal(v *objectBase) bool { return !prim_held(&v.lock) }
-
-//@ requires (*Object).UnmarshalBinary
-func req_ObjectUnmarshal(v *Object) bool { return !prim_held(&v.lock) }
-
-//@ requires (*EcmaArray).UnmarshalBinary
-func req_EcmaUnmarshal(v *EcmaArray) bool { return !prim_held(&v.lock) }
-
-//@ requires (*StrictArray).UnmarshalBinary
-func req_StrictUnmarshal(v *StrictArray) bool { return !prim_held(&v.lock) }
+// a container as the constructors, Set and the decoder build it: the lock is free, every property and its value exist
+func spec_wfObjectBase(v *objectBase) bool {
+	return !prim_held(&v.lock) && prim_forall(len(v.properties), func(i int) bool {
+		p := v.properties[i]
+		return p != nil && p.value != nil && spec_allocated(p.value)
+	})
+}
 
 func prim_held(mu *sync.Mutex) bool { return false }
 
-//@ assigns (*objectBase).unmarshal v.*, v.properties[*], any(property)
-//@ assigns (*Object).UnmarshalBinary v.*, v.objectBase.properties[*], any(property)
-//@ assigns (*EcmaArray).UnmarshalBinary v.*, v.objectBase.properties[*], any(property)
-//@ assigns (*StrictArray).UnmarshalBinary v.*, v.objectBase.properties[*], any(property)
+//@ requires (*objectBase).unmarshal
+func req_objectBaseUnmarshal(v *objectBase) bool { return spec_wfObjectBase(v) }
+
+//@ requires (*Object).UnmarshalBinary
+func req_ObjectUnmarshal(v *Object) bool { return spec_wfObjectBase(&v.objectBase) }
+
+//@ requires (*EcmaArray).UnmarshalBinary
+func req_EcmaUnmarshal(v *EcmaArray) bool { return spec_wfObjectBase(&v.objectBase) }
+
+//@ requires (*StrictArray).UnmarshalBinary
+func req_StrictUnmarshal(v *StrictArray) bool { return spec_wfObjectBase(&v.objectBase) }
+
+// (exported for the contracts of packages that embed AMF0 objects; this file is only built with the verif tag)
+func Spec_WfObject(o *Object) bool { return o != nil && spec_wfObjectBase(&o.objectBase) }
+
+func Spec_Allocated(a Amf0) bool { return a != nil && spec_allocated(a) }
+
+// decoding keeps the container well formed, whatever the outcome
+//@ ensures (*objectBase).unmarshal C05.container.wf C07.container.wf
+func ens_objectBaseUnmarshal_wf(v *objectBase) bool { return spec_wfObjectBase(v) }
+
+//@ ensures (*Object).UnmarshalBinary C05.container.wf C07.container.wf
+func ens_ObjectUnmarshal_wf(v *Object) bool { return spec_wfObjectBase(&v.objectBase) }
+
+// Size() of a container is a function of the container's (deep) state: callers and contracts see it as such
+//@ requires (*objectBase).Size
+func req_objectBaseSize(v *objectBase) bool { return spec_wfObjectBase(v) }
+
+//@ pure (*objectBase).Size reads amf0.
+//@ ensures (*objectBase).Size C05.container.size.lock-restored C07.container.size.lock-restored
+func ens_objectBaseSize(v *objectBase) bool { return !prim_held(&v.lock) }
+
+//@ safe (*objectBase).Size C07
+
+//@ requires (*Object).Size
+func req_ObjectSize(v *Object) bool { return spec_wfObjectBase(&v.objectBase) }
+
+//@ pure (*Object).Size reads amf0.
+//@ safe (*Object).Size C07
+
+// a successfully decoded object is no longer than its input (Size() is the sum over the properties read, each no longer
+// than what it was read from: needs induction over the list, which the engine does not do; supported by the bounded
+// container lemmas and by lemma_C05_objectRepeatedKey)
+//@ assume-ensures (*Object).UnmarshalBinary
+func assumed_ObjectUnmarshal_size(v *Object, data []byte, err error) bool {
+	return err != nil || v.Size() >= 4 && v.Size() <= len(data)
+}
+
+//@ assigns (*objectBase).unmarshal v.*, v.properties[*]
+//@ assigns (*Object).UnmarshalBinary v.*, v.objectBase.properties[*]
+//@ assigns (*EcmaArray).UnmarshalBinary v.*, v.objectBase.properties[*]
+//@ assigns (*StrictArray).UnmarshalBinary v.*, v.objectBase.properties[*]
 
 // both decoding loops: the property lock is free between iterations, and every iteration consumes input
 //@ invariant (*objectBase).unmarshal 0
-func inv_unmarshal0(v *objectBase) bool { return !prim_held(&v.lock) }
+func inv_unmarshal0(v *objectBase) bool { return spec_wfObjectBase(v) }
 
 //@ invariant (*objectBase).unmarshal 1
-func inv_unmarshal1(v *objectBase) bool { return !prim_held(&v.lock) }
+func inv_unmarshal1(v *objectBase) bool { return spec_wfObjectBase(v) }
 
 //@ decreases (*objectBase).unmarshal 0
 func dec_unmarshal0(p []byte) int { return len(p) }
